@@ -12,6 +12,9 @@ Auths == {{"owner0"}, {"bob"}, {"mallory"}, {}}
 Fixtures == {"Ftriv", "Fdummy"}
 \* argument lists handed to migrate: [()], [string], [] (nothing to forward), [(), ()]
 DataKinds == {"unit", "str", "empty", "two"}
+\* requested versions that are neighbours of the real ones in string order: below the current one, between the
+\* current and the new one, a proper prefix and an extension of the new one (equality is what counts, not order)
+OrderNeighbours == {"0.0.9", "0.1.5", "0.2", "0.2.0.1"}
 Acts(s) ==
     {[name |-> "Upgrade", new |-> f, auth |-> au] : f \in Fixtures, au \in Auths}
     \cup {[name |-> "Migrate", data |-> d, auth |-> au] : d \in DataKinds, au \in Auths}
@@ -22,7 +25,7 @@ Acts(s) ==
           [name |-> "Migrate", data |-> "str", auth |-> {}, scopedAuth |-> {s.owner}, keepArgs |-> <<>>]}
     \cup {[name |-> "TransferOwnership", new |-> n, auth |-> {s.owner}] : n \in {"owner0", "bob"}}
     \cup {[name |-> "UpgraderUpgrade", new |-> f, version |-> v, data |-> d, authUp |-> p[1], authMig |-> p[2]] :
-            f \in Fixtures \cup {"Fnover"}, v \in {"0.1.0", "0.2.0", "9.9.9"}, d \in DataKinds,
+            f \in Fixtures \cup {"Fnover"}, v \in {"0.1.0", "0.2.0", "9.9.9"} \cup OrderNeighbours, d \in DataKinds,
             p \in {<<{s.owner}, {s.owner}>>, <<{s.owner}, {}>>, <<{}, {s.owner}>>, <<{}, {}>>,
                    <<{"mallory"}, {"mallory"}>>, <<{s.owner}, {"mallory"}>>}}
 
